@@ -404,7 +404,34 @@ func TestC18(t *testing.T) {
 		case "content":
 			v := f.Render()
 			var text string
-			switch rapid.IntRange(0, 5).Draw(rt, "contentkind") {
+			nullInYAML := false
+			switch rapid.IntRange(0, 6).Draw(rt, "contentkind") {
+			case 6:
+				// a null where a subschema is expected (property value, definition, branch), in a file
+				// that goes through the YAML loader
+				if c.Avoid("schema.null_subschema") {
+					c.ExcludedMap()["schema.null_subschema"]++
+					text = string(v.Indent())
+					cc.What = "unchanged (null subschema excluded)"
+					break
+				}
+				var paths [][]pathStep
+				collectPaths(v, nil, &paths)
+				var cands [][]pathStep
+				for _, p := range paths {
+					if len(p) >= 2 && (p[len(p)-2].key == "properties" || p[len(p)-2].key == "$defs" || p[len(p)-2].key == "definitions" || p[len(p)-2].key == "allOf" || p[len(p)-2].key == "anyOf") {
+						cands = append(cands, p)
+					}
+				}
+				if len(cands) == 0 {
+					text = string(v.Indent())
+					cc.What = "unchanged (no subschema position)"
+					break
+				}
+				p := cands[rapid.IntRange(0, len(cands)-1).Draw(rt, "nullpath")]
+				text = string(replaceAtPath(v, p, jv.NullV()).Indent())
+				cc.What = "null subschema at " + pathString(p) + " in a YAML file"
+				nullInYAML = true
 			case 0, 1, 2:
 				mv, what := mutateSchema(rt, c, v)
 				cc.What = "mutation " + what
@@ -424,7 +451,7 @@ func TestC18(t *testing.T) {
 				text = string(mv2.Indent())
 			}
 			name := "prog.json"
-			if rapid.IntRange(0, 4).Draw(rt, "asyaml") == 0 {
+			if rapid.IntRange(0, 4).Draw(rt, "asyaml") == 0 || nullInYAML {
 				name = "prog.yaml"
 			}
 			cc.Case = &gen.Case{Files: []gen.FileText{{RelPath: name, Text: text}}, Inputs: []string{name}, Config: cfg}
